@@ -967,7 +967,8 @@ func (x *Exec) frameCheck(st *State, fr *Frame, env *Env, c *FuncContract, pos t
 	usesJ := false
 	r := mkVar("frame!r", RefS)
 	jj := mkVar("frame!j", I64)
-	pre := BvCmp("bvult", r, mkBVu(0x80000000, 32))
+	// objects that existed at entry; the nil reference is not an object (nothing is stored "at nil")
+	pre := And(BvCmp("bvult", r, mkBVu(0x80000000, 32)), Neq(r, mkBV(0, 32)))
 	for _, key := range sortedKeys(st.heap) {
 		now := st.heap[key]
 		init := st.entry.region(key, now.sort)
